@@ -126,6 +126,50 @@ Proof. exact exempt_lemma. Qed.
 Print Assumptions exempt_passthrough.
 
 (* ================================================================== *)
+(* several requests through one TimeoutHandler instance                 *)
+
+(* requests_isolated.  For every list of requests (own pre-set headers, own handler
+   script) served by one middleware instance and EVERY schedule interleaving the H,
+   D and S threads of all of them — in particular a handler abandoned at its timeout
+   that goes on writing while later requests are being served — the component of
+   each request is exactly the single-request run under that request's own events,
+   hence its response is all-or-nothing w.r.t. its OWN script: nothing of any other
+   request can appear in it. *)
+Theorem requests_isolated : forall reqs sched i h0 script,
+  nth_error reqs i = Some (h0, script) ->
+  exists s, nth_error (mrun (minit reqs) sched) i = Some s /\
+            s = run (init h0 script) (proj i sched) /\
+            outcome h0 script s.
+Proof. exact requests_isolated_lemma. Qed.
+Print Assumptions requests_isolated.
+
+(* frame lemma behind it: a step of request i does not touch request j's state *)
+Theorem request_step_frame : forall ss i e j,
+  i <> j -> nth_error (mstepT ss (i, e)) j = nth_error ss j.
+Proof. exact mstep_frame. Qed.
+Print Assumptions request_step_frame.
+
+(* a request's timeout reply survives everything every request's threads do later *)
+Theorem timeout_reply_final_among_requests : forall reqs sched1 sched2 i h0 script k s1,
+  nth_error reqs i = Some (h0, script) ->
+  nth_error (mrun (minit reqs) sched1) i = Some s1 -> sst s1 = STimeoutRet k ->
+  exists s2, nth_error (mrun (minit reqs) (sched1 ++ sched2)) i = Some s2 /\
+             rw s2 = timeout_resp h0 k /\ sst s2 = STimeoutRet k.
+Proof. exact isolated_timeout_final. Qed.
+Print Assumptions timeout_reply_final_among_requests.
+
+(* request A is abandoned after its first write, request B is served while A's
+   handler goes on writing: B gets exactly B's response, A keeps the 499 *)
+Example ex_two_requests :
+  let reqs := [([], [AWrite [130]; AWrite [131]]); ([(1, [5])], [ASet 2 8; AWriteHeader 201; AWrite [200]])] in
+  let sched := [(0, EH); (0, ED KCancel); (0, ES BTimeout); (1, EH); (0, EH); (1, EH); (0, EH);
+                (1, EH); (1, EH); (1, ES BDone)]%nat in
+  map rw (mrun (minit reqs) sched) =
+  [mkRW [] (Some (499, [])) reason;
+   mkRW [(1, [5]); (2, [8])] (Some (201, [(1, [5]); (2, [8])])) [200]].
+Proof. vm_compute. reflexivity. Qed.
+
+(* ================================================================== *)
 (* zRPC server interceptor and fx.DoWithTimeout (result slot)           *)
 
 (* all-or-nothing: what the wrapper returns is the work's own final result, or —
